@@ -83,11 +83,13 @@ PROPS = {
     },
     "C06": {
         "level": "other",
-        "explanation": "Sequential protocol only (contracts have no threads): pfx_table_swap exchanges exactly the roots with both WRITE locks "
+        "explanation": "Sequential protocol only (contracts have no threads): pfx_table_swap exchanges exactly the roots and spki_table_swap exactly the hash table and the list, with both WRITE locks "
                        "held at every access and released on return (complete; roots are parked as junk outside critical sections so an "
                        "unlocked access breaks the postcondition); thorough tier: during a reload no add/remove reaches the live tables "
                        "before the swap and each table is swapped exactly once (units store_*). The interleaving argument (rwlock mutual "
-                       "exclusion => a reader sees the old or the new set) is a paper lemma, not mechanised; spki_table_swap is not under contract.",
+                       "exclusion => a reader sees the old or the new set) is a paper lemma, not mechanised. With a non-empty response the choice of the "
+                       "table that receives the records is NOT decided by a registered check (store_* shapes with payload and spki_copy are lab tier; "
+                       "a seeded change of that kind is missed, DESIGN.md section 6).",
         "trusted": ["pthread rwlock semantics"],
         "assumptions": ["no schedule is explored"],
     },
@@ -111,8 +113,9 @@ PROPS = {
                        "byte only (bounded): spki_table_get_all returns exactly the entries with that AS and SKI, "
                        "spki_table_search_by_ski exactly those with that SKI, each once, in order, byte for byte; "
                        "spki_table_src_remove unlinks, releases and reports exactly that source's entries and keeps the others in "
-                       "order. NOT decided by a registered check: spki_table_add_entry / spki_table_remove_entry as a whole (units "
-                       "spki_add / spki_remove on the real inline tommy_hashlin_search do not finish here: lab tier), copy, swap, "
+                       "order; spki_table_swap exchanges both containers completely under both write locks (complete). NOT decided by a "
+                       "registered check: spki_table_add_entry / spki_table_remove_entry / spki_table_copy_except_socket as a whole (units "
+                       "spki_add / spki_remove / spki_copy on the real inline tommy_hashlin_search do not finish here: lab tier), "
                        "notify_diff, and histories on the real tommyds hash table incl. its resize steps (spki_hist, lab tier).",
         "trusted": [],
         "assumptions": ["tommyds bucket contract: the bucket of a hash holds all entries with that hash and possibly others (every bucket of the "
@@ -448,7 +451,7 @@ UNITS = [
       replace=["rtr_receive_pdu/rtr_receive_pdu__store", "rtr_send_error_pdu_from_host", "rtr_handle_error_pdu/rtr_handle_error_pdu__client", "verif_fmt"],
       kind="bounded: one Router Key PDU (any content the receive contract can deliver) + terminal event",
       defines=["STORE_SHAPE=9", "STORE_RECV_CONTRACT", "STORE_TERM_EOD"], unwind_functions={"rtr_sync_receive_and_store_pdus": 3, "strlen": 70},
-      native=None, link=PKT_LINK, timeout=2400, object_bits=10, mem_gb=40,
+      native=None, link=PKT_LINK, timeout=2400, object_bits=12, mem_gb=40,
       stubs=["lrtr_malloc", "lrtr_realloc", "lrtr_free", "pfx_table_*", "spki_table_*", "lrtr_dbg", "pthread_setcancelstate"]),
     U(id="store_E", props=["C03", "C05", "C06", "C13", "C14", "C17"], file="units/store.c", entry="h_store", tier="thorough",
       enforce=[], plain=True, remove_bodies=["rtr_send_error_pdu_from_host"], allow_undefined=True, checked_by_assertions=["rtr_sync_receive_and_store_pdus", "rtr_receive_pdu", "rtr_update_pfx_table", "rtr_undo_update_pfx_table",
@@ -646,6 +649,9 @@ UNITS = [
       bound=18, unwindset={"trie_insert": {"quick": 4, "thorough": 5}}, native=None, timeout=3000, allow_undefined=True, stubs=["lrtr_ip_addr_*"]),
     U(id="pfx_swap", props=["C06", "C16"], file="units/swap.c", entry="h_pfx_swap", enforce=["pfx_table_swap"], kind="complete", native=None,
       stubs=["pthread_rwlock_*"]),
+    U(id="spki_swap", props=["C06", "C10", "C16"], file="units/spki_swap.c", entry="h_spki_swap", enforce=[], plain=True,
+      checked_by_assertions=["spki_table_swap"], need_classes=["assertion"], kind="complete", bound=600, native=None, timeout=1200,
+      allow_undefined=True, stubs=["pthread_rwlock_*"]),
     U(id="lemma_path", props=["C01", "C02"], file="units/lemma.c", entry="h_lemma_path", enforce=[], plain=True, checked_by_assertions=[],
       need_classes=["assertion"], kind="complete", native=None, allow_undefined=True),
     U(id="bgpsec_align", props=["C11", "C12"], file="units/bgpsec_align.c", entry="h_align", enforce=[], plain=True,
@@ -676,6 +682,10 @@ UNITS = [
       checked_by_assertions=["spki_table_remove_entry", "key_entry_cmp", "tommy_hashlin_search"], need_classes=["assertion"], kind="bounded: bucket chain / list of at most 2 entries",
       bound=93, unwindset={"tommy_hashlin_search.0": 4, "tommy_hashlin_remove.0": 4},
       native=None, timeout=1800, allow_undefined=True, stubs=["lrtr_malloc", "lrtr_free", "tommy_hashlin_insert", "tommy_hashlin_remove", "pthread_rwlock_*"]),
+    U(id="spki_copy", props=["C06", "C10", "C16", "C18"], file="units/spki_ops.c", entry="h_spki_copy", tier="lab", defines=["H_ENTRY=h_spki_copy"], enforce=[], plain=True,
+      checked_by_assertions=["spki_table_copy_except_socket", "spki_table_add_entry"], need_classes=["assertion"], kind="bounded: source list of at most 3 entries, empty destination",
+      bound=93, unwindset={"spki_table_copy_except_socket.0": 5, "tommy_hashlin_search.0": 2},
+      native=None, timeout=1800, allow_undefined=True, stubs=["lrtr_malloc", "lrtr_free", "tommy_hashlin_insert", "pthread_rwlock_*"]),
     U(id="spki_get_all", props=["C10", "C16", "C18"], file="units/spki_ops.c", entry="h_spki_get_all", defines=["H_ENTRY=h_spki_get_all"], enforce=[], plain=True,
       checked_by_assertions=["spki_table_get_all"], need_classes=["assertion"], kind="bounded: bucket chain / list of at most 3 entries",
       bound=93, unwindset={"spki_table_get_all.0": 5, "spki_table_search_by_ski.0": 5, "spki_table_src_remove.0": 5},
